@@ -50,17 +50,22 @@ def flatOfPair {dA dB : Nat} (p : Fin dA × Fin dB) : Nat := p.1.val * dB + p.2.
 def pairOfFlat (dA dB : Nat) (i : Nat) : Option (Fin dA × Fin dB) :=
   if h : 0 < dB ∧ i / dB < dA then some (⟨i / dB, h.2⟩, ⟨i % dB, Nat.mod_lt _ h.1⟩) else none
 
-/-- all pairs in row-major order -/
-def allPairs (dA dB : Nat) : List (Fin dA × Fin dB) :=
-  (List.finRange dA).flatMap fun a => (List.finRange dB).map fun b => (a, b)
+/-- the pair at row-major position `i` of `reshape(dA, dB)`: `(i / dB, i % dB)` -/
+def pairAt (dA dB : Nat) (i : Fin (dA * dB)) : Fin dA × Fin dB :=
+  (⟨i.val / dB, Nat.div_lt_of_lt_mul (Nat.lt_of_lt_of_eq i.isLt (Nat.mul_comm dA dB))⟩,
+   ⟨i.val % dB, Nat.mod_lt _ (Nat.pos_of_ne_zero (by intro h; have := i.isLt; simp [h] at this))⟩)
 
-/-- a `(dA·dB)×(dA·dB)` matrix from its row-major flat list -/
+/-- a `(dA·dB)×(dA·dB)` matrix from its row-major flat list (`reshape(dA,dB,dA,dB)` read at `[a,b,a',b']`) -/
 def ofFlat {α : Type} [Zero α] (dA dB : Nat) (l : List α) : Fin dA × Fin dB → Fin dA × Fin dB → α :=
   let a := l.toArray
   fun p q => a.getD (flatOfPair p * (dA * dB) + flatOfPair q) 0
 
+/-- the row-major flat list of a pair-indexed matrix (`reshape(dA*dB*dA*dB)`): position `i` holds the entry with row pair at
+position `i / N` and column pair at position `i % N`, `N = dA·dB` -/
 def toFlat {α : Type} (dA dB : Nat) (M : Fin dA × Fin dB → Fin dA × Fin dB → α) : List α :=
-  (allPairs dA dB).flatMap fun p => (allPairs dA dB).map fun q => M p q
+  List.ofFn fun i : Fin ((dA * dB) * (dA * dB)) =>
+    M (pairAt dA dB ⟨i.val / (dA * dB), Nat.div_lt_of_lt_mul i.isLt⟩)
+      (pairAt dA dB ⟨i.val % (dA * dB), Nat.mod_lt _ (Nat.pos_of_ne_zero (by intro h; have := i.isLt; simp [h] at this))⟩)
 
 /-! ## Gell-Mann norm and interpolation -/
 
